@@ -313,6 +313,8 @@ def run(ctx):
         discs, r = check_program(ctx, prog, layout, picks, ctx.scratch)
         if prog.stats.get("same_line_dups"):
             ctx.event("programs-with-i+i")
+        if prog.stats.get("quote_mix"):
+            ctx.event("programs-with-mixed-quotes-and-!-in-literals-and-comments")
         return discs
 
     def case_of(v):
